@@ -306,7 +306,7 @@ for _sh in (False, True):
 
 
 # ---------------------------------------------------------------------------------------------------------------- C02 (chain, thresholds 2..4)
-SUCC_K = "(u % ipow(4, k - 1)) * 4 + j"
+SUCC_K = "succ(u, j, k)"
 def c02_chain(shuffled):
   nm = "c02_chain" + ("_table" if shuffled else "")
   sh = "shuffles" if shuffled else "None"
